@@ -100,6 +100,7 @@ type hGen struct {
 	named     int   // out of 3: how often a rule port is the named port
 	broad     bool  // selectors are mostly empty, so policies really select the pods
 	weights   []int // per-history mix of mutation kinds
+	exprs     bool  // selectors are mostly matchExpressions (Exists / DoesNotExist / In / NotIn)
 	anpN      int   // number of ANP names in play
 	adminPre  int   // admin profile: ANPs inserted up front
 	owned     bool  // every pod has a controller (so every verdict is cacheable)
@@ -116,6 +117,15 @@ func (g *hGen) proto() string {
 }
 
 func (g *hGen) sel(keys, vals []string) metav1.LabelSelector {
+	if g.exprs && g.r.chance(2, 3) {
+		r := g.r
+		op := pick(r, []metav1.LabelSelectorOperator{metav1.LabelSelectorOpExists, metav1.LabelSelectorOpDoesNotExist, metav1.LabelSelectorOpIn, metav1.LabelSelectorOpNotIn})
+		e := metav1.LabelSelectorRequirement{Key: pick(r, keys), Operator: op}
+		if op == metav1.LabelSelectorOpIn || op == metav1.LabelSelectorOpNotIn {
+			e.Values = []string{pick(r, vals)}
+		}
+		return metav1.LabelSelector{MatchExpressions: []metav1.LabelSelectorRequirement{e}}
+	}
 	if g.broad && g.r.chance(2, 3) {
 		return metav1.LabelSelector{}
 	}
@@ -626,6 +636,11 @@ func genHistory(r *rng, n int) *history {
 		g.nsN, g.podN, g.tcpOnly, g.named, g.broad, g.owned = 1, 2, true, 3, true, true
 		g.qports = []string{"80", "8080", "443"}
 		g.weights = []int{6, 3, 1, 0, 6, 2, 0, 0, 0, 0, 0, 0, 0, 2, 10}
+	case prof < 6:
+		// relabel profile: namespaces and pods keep losing and gaining labels under policies whose selectors
+		// are matchExpressions, so that a removed key flips DoesNotExist / NotIn / Exists
+		g.nsN, g.podN, g.owned, g.exprs = 2, 3, true, true
+		g.weights = []int{6, 1, 12, 0, 5, 2, 4, 2, 1, 1, 1, 0, 0, 0, 0}
 	}
 	if r.chance(1, 5) {
 		// rollout profile: one namespace, few controlled pods, policies with named ports that really
